@@ -754,6 +754,10 @@ def run(prog, rep, tier):
     check_list_args_copied(prog, rep)
     if check_param_icall(prog, rep, inplace) < 2:
         raise AnalysisError('OWN-param-icall: the confirmed instances were not found')
+    rep.rule('OWN-benign-rebind', 'the storage re-ordering methods the analysis treats as harmless '
+             '(isort_qdata, _imake_contiguous) re-bind _qdata / _data and never permute them in place')
+    if check_benign_rebind(prog, rep) < 2:
+        raise AnalysisError('OWN-benign-rebind: isort_qdata / _imake_contiguous not found')
     rep.rule('COPY-mixed-update', 'classes with a shallow copy(): a method never replaces one '
              'per-site list and updates a sibling list element-wise (the copy would be half updated)')
     if check_copy_mixed_update(prog, rep) < 1:
@@ -825,4 +829,47 @@ def check_copy_mixed_update(prog, rep):
                               '`cp = x.copy(); cp.%s()` the source x keeps its old `%s` but sees '
                               'the new entries of `%s`' % (key_text(st)[:60], a, sorted(rb)[0],
                                                            name, sorted(rb)[0], a), st.lineno)
+    return n
+
+
+# ------------------------------------------------------------------ OWN-benign-rebind
+def check_benign_rebind(prog, rep):
+    """OWN-benign-rebind: the ownership analysis treats calls of isort_qdata / _imake_contiguous on
+    operands as harmless ("only re-order / re-layout storage"). That holds only if these methods
+    RE-BIND `_qdata` / `_data`: both containers are shared with shallow copies, and `_qdata` alone
+    also with results of unary operations (`-a`, `a.complex_conj()`), which own a different `_data`
+    list. An element / slice store (`self._qdata[:] = ..`, `self._data[:] = ..`) or an in-place
+    list method permutes the rows underneath such a tensor, whose blocks then no longer match."""
+    m = prog.module(NPC)
+    ct = prog.classtable()
+    ci = ct.get('Array')
+    n = 0
+    for name in sorted(BENIGN_INPLACE):
+        f = ci.methods.get(name)
+        if f is None or name.startswith('test_'):
+            continue
+        n += 1
+        bad = []
+        for st in ast.walk(f):
+            if isinstance(st, (ast.Assign, ast.AugAssign)):
+                tg = st.targets if isinstance(st, ast.Assign) else [st.target]
+                for t in tg:
+                    if isinstance(t, ast.Subscript) and is_self_attr(t.value) and \
+                            t.value.attr in ('_qdata', '_data'):
+                        if t.value.attr == '_data' and not isinstance(t.slice, ast.Slice):
+                            continue      # replacing one block object in the own list position
+                        bad.append(st)
+            if isinstance(st, ast.Call) and isinstance(st.func, ast.Attribute) and \
+                    is_self_attr(st.func.value) and st.func.value.attr in ('_qdata', '_data') and \
+                    st.func.attr in ('sort', 'reverse', 'append', 'insert', 'pop', 'extend',
+                                     'remove', 'clear', 'resize', 'put', 'fill'):
+                bad.append(st)
+        rep.instance('OWN-benign-rebind', {'method': 'Array.' + name, 'rebinds_only': not bad})
+        for st in bad:
+            rep.violation('OWN-benign-rebind', m, 'Array.' + name, 'inplace-shared:' +
+                          key_text(st)[:40],
+                          '`%s` re-orders the shared storage in place; a tensor that shares '
+                          '`_qdata` but owns another `_data` list (result of -a, complex_conj, a '
+                          'shallow copy after its data were re-bound) keeps its blocks in the old '
+                          'order against permuted index rows' % key_text(st)[:60], st.lineno)
     return n
